@@ -15,6 +15,7 @@ Inductive sty :=
 | SStr (s : str)
 | SMap (l : list (str * str))      (* css map: key, value as text (String / strconv.Itoa of an Int) *)
 | SCloErr                           (* a closure style with one argument whose evaluation returns an error *)
+| SCloId                            (* a closure with one argument that returns its argument *)
 | STab (css : list (str * str)) (tf : list (str * sty)).
     (* a map style with the key table: css entries as in SMap, and the table format map
        (keys rNcM, rN, cN, all; values: styles for the cells of a list of lists) *)
@@ -71,7 +72,7 @@ Definition replace_us (k : str) : str := map (fun c => if c =? 95 then 45 else c
 (* toStyleStr *)
 Definition style_str (st : sty) : option str :=
   match st with
-  | SNone | SCloErr => None
+  | SNone | SCloErr | SCloId => None
   | SStr s => Some s
   | SMap l | STab l _ =>              (* the table entry is a map: not part of the style string *)
       match l with
@@ -85,7 +86,7 @@ Definition style_str (st : sty) : option str :=
 (* hasKey(style, "plainList") *)
 Definition has_plain (st : sty) : bool :=
   match st with
-  | SNone | SCloErr => false
+  | SNone | SCloErr | SCloId => false
   | SStr s => str_eqb s s_plainList
   | SMap l | STab l _ => existsb (fun kv => str_eqb (fst kv) s_plainList) l
   end.
@@ -93,6 +94,10 @@ Definition has_plain (st : sty) : bool :=
 (* tableExporter.open: the table format of a style *)
 Definition tf_of (st : sty) : list (str * sty) :=
   match st with STab _ tf => tf | _ => [] end.
+
+(* the cell at (row, col) is rendered as toTD(item): no format, or an identity closure *)
+Definition cell_plain (o : option sty) : bool :=
+  match o with None | Some SCloId => true | Some _ => false end.
 
 (* tableExporter.format: r<row>c<col>, then r<row>, then c<col>, then all *)
 Definition tf_lookup (tf : list (str * sty)) (row col : N) : option sty :=
@@ -266,10 +271,10 @@ Definition to_td_with (html : hval -> sty -> list str -> res) (d : hval) (cls : 
 Definition cell_with (html : hval -> sty -> list str -> res) (tf : list (str * sty)) (row col : N)
   (y : hval) (cls : list str) : res :=
   match tf_lookup tf row col with
+  | None | Some SCloId => to_td_with html y cls      (* a closure format returns its result: here the item *)
   | Some f =>
       let '(a, cls1) := style_attr inline f cls in
       bind (html y SNone cls1) (fun o cls2 => Some (OOpen s_td :: a ++ o ++ [OClose], cls2))
-  | None => to_td_with html y cls
   end.
 
 (* toHtml(v, style); the class list is threaded through *)
@@ -352,7 +357,7 @@ Definition eff_max (maxl : N) : N := if maxl <? 1 then 1 else maxl.
 (* all strings of the value (texts, keys, link targets, style strings, css keys and values) are legal XML characters *)
 Fixpoint legal_sty (st : sty) : bool :=
   match st with
-  | SNone | SCloErr => true
+  | SNone | SCloErr | SCloId => true
   | SStr s => legal s
   | SMap l => forallb (fun kv => legal (fst kv) && legal (snd kv)) l
   | STab l tf => forallb (fun kv => legal (fst kv) && legal (snd kv)) l &&
@@ -400,21 +405,21 @@ Inductive fails : hval -> sty -> Prop :=
 | F_row : forall items first r x st, has_plain st = false ->
     nth_error items 0 = Some first -> is_HL first = true ->
     nth_error items r = Some x -> N.of_nat r < maxl -> is_HL x = false ->
-    tf_lookup (tf_of st) (N.of_nat r + 1) 1 = None -> fails_td x -> fails (HL items) st
+    cell_plain (tf_lookup (tf_of st) (N.of_nat r + 1) 1) = true -> fails_td x -> fails (HL items) st
 | F_row_fmt : forall items first r x f st, has_plain st = false ->
     nth_error items 0 = Some first -> is_HL first = true ->
     nth_error items r = Some x -> N.of_nat r < maxl -> is_HL x = false ->
-    tf_lookup (tf_of st) (N.of_nat r + 1) 1 = Some f -> fails x SNone -> fails (HL items) st
+    tf_lookup (tf_of st) (N.of_nat r + 1) 1 = Some f -> f <> SCloId -> fails x SNone -> fails (HL items) st
 | F_cell : forall items first r cols c y st, has_plain st = false ->
     nth_error items 0 = Some first -> is_HL first = true ->
     nth_error items r = Some (HL cols) -> N.of_nat r < maxl ->
     nth_error cols c = Some y -> N.of_nat c < maxl ->
-    tf_lookup (tf_of st) (N.of_nat r + 1) (N.of_nat c + 1) = None -> fails_td y -> fails (HL items) st
+    cell_plain (tf_lookup (tf_of st) (N.of_nat r + 1) (N.of_nat c + 1)) = true -> fails_td y -> fails (HL items) st
 | F_cell_fmt : forall items first r cols c y f st, has_plain st = false ->
     nth_error items 0 = Some first -> is_HL first = true ->
     nth_error items r = Some (HL cols) -> N.of_nat r < maxl ->
     nth_error cols c = Some y -> N.of_nat c < maxl ->
-    tf_lookup (tf_of st) (N.of_nat r + 1) (N.of_nat c + 1) = Some f -> fails y SNone -> fails (HL items) st
+    tf_lookup (tf_of st) (N.of_nat r + 1) (N.of_nat c + 1) = Some f -> f <> SCloId -> fails y SNone -> fails (HL items) st
 with fails_td : hval -> Prop :=
 | T_list : forall cs f inner, is_HL inner = true -> fails inner f -> fails_td (HFmt false cs f inner)
 | T_other : forall cell cs f inner, is_HL inner && negb cell = false -> fails inner SNone ->
